@@ -65,7 +65,7 @@ def run_one(mut, tier, seeds):
         out["tests_pass"] = code == 0
         if code != 0:
             out["tests_tail"] = text.strip().splitlines()[-3:]
-        env = dict(os.environ, PLOTINK_REPO=tmp)
+        env = dict(os.environ, PLOTINK_REPO=tmp, VERIF_REPLAY_DIR=os.path.join(tmp, "replays"))
         detected = []
         replay_path = None
         for seed in seeds:
